@@ -124,7 +124,10 @@ def classify_set_iteration(idx: Index, si: SetIteration) -> Tuple[str, str]:
                     unresolved.append(f"calls {cn}() (line {x.lineno}) which rewrites element metadata from neighbouring values")
         elif isinstance(x, ast.Subscript) and isinstance(x.ctx, ast.Store) and isinstance(x.value, ast.Name) and fi is not None and not _defined_inside(n, x.value.id):
             d = x.value.id
-            if _dict_iterated_later(fi, d, n):
+            esc = _dict_escapes_into_model(fi, d, n)
+            if esc is not None:
+                reasons.append(f"inserts into dict `{d}` (line {x.lineno}) in hash order, and `{src(esc, 50)}` (line {esc.lineno}) copies that insertion order into the model (IR mappings serialise in insertion order)")
+            elif _dict_iterated_later(fi, d, n):
                 unresolved.append(f"inserts into dict `{d}` that is iterated later (insertion order = hash order)")
         elif isinstance(x, (ast.Break, ast.Return)):
             # selection of one element: fine when only a constant / flag leaves the loop
@@ -170,6 +173,23 @@ def _mutates_from_neighbours(g: FuncInfo) -> bool:
     writes = any(isinstance(x, ast.Attribute) and isinstance(x.ctx, ast.Store) and x.attr in ("shape", "type", "dtype") for x in ast.walk(g.node))
     reads_inputs = any(isinstance(x, ast.Call) and (call_name(x) or "").split(".")[-1] in ("_node_inputs", "_first_input") for x in ast.walk(g.node))
     return writes and reads_inputs
+
+
+_MODEL_MAPPINGS = ("opset_imports", "metadata_props", "initializers", "functions", "attributes")
+
+
+def _dict_escapes_into_model(fi: FuncInfo, name: str, after: ast.AST) -> Optional[ast.AST]:
+    """`<model>.opset_imports.update(d)` / `<model>.metadata_props = d` after the loop: the dict's insertion order becomes
+    the order of a serialised mapping of the model."""
+    for x in walk_no_nested(fi.node):
+        if getattr(x, "lineno", 0) <= getattr(after, "lineno", 0):
+            continue
+        if isinstance(x, ast.Call) and isinstance(x.func, ast.Attribute) and x.func.attr == "update" and any(isinstance(a, ast.Name) and a.id == name for a in x.args) \
+                and isinstance(x.func.value, ast.Attribute) and x.func.value.attr in _MODEL_MAPPINGS:
+            return x
+        if isinstance(x, ast.Assign) and isinstance(x.value, ast.Name) and x.value.id == name and any(isinstance(t, ast.Attribute) and t.attr in _MODEL_MAPPINGS for t in x.targets):
+            return x
+    return None
 
 
 def _dict_iterated_later(fi: FuncInfo, name: str, after: ast.AST) -> bool:
